@@ -185,6 +185,21 @@ def f7(x, nd):
     return s
 
 
+def grid_chars(nx, ny, small='99'):
+    """the two-character grid field of the label: a grid number for grids
+    below 1000 cells per side; for larger grids the thousands of NX and NY
+    are carried here as CHAR(64 + n/1000) ('@' = 0, 'A' = 1, ...) and the
+    3-digit NX/NY fields of the index record hold the remainder"""
+    if nx < 1000 and ny < 1000:
+        return small
+    return chr(64 + nx // 1000) + chr(64 + ny // 1000)
+
+
+def grid_offsets(grid):
+    """inverse of grid_chars: thousands of (NX, NY)"""
+    return [max(0, ord(c) - 64) * 1000 if c >= 'A' else 0 for c in grid[:2]]
+
+
 def encode(spec):
     """spec: dict(nx, ny, grid (2 chars), source (<=4 chars), vsys (int),
     geo=dict(pollat, pollon, reflat, reflon, gridx, orient, tanlat, synchx,
@@ -195,6 +210,7 @@ def encode(spec):
     (ti, li, key) -> pack() result."""
     nx, ny = spec['nx'], spec['ny']
     recl = 50 + nx * ny
+    grid = grid_chars(nx, ny, spec.get('grid', '99'))
     levels = spec['levels']
     nz = len(levels)
     varlists = [spec['sfc']] + list(spec['upper'])
@@ -222,7 +238,8 @@ def encode(spec):
                   'tanlat', 'synchx', 'synchy', 'synchlat', 'synchlon',
                   'reserved'):
             hdr += f7(g[k], nd)
-        hdr += '%3d%3d%3d%2d%4d' % (nx, ny, nz, spec['vsys'], lenh)
+        hdr += '%3d%3d%3d%2d%4d' % (nx % 1000, ny % 1000, nz, spec['vsys'],
+                                    lenh)
         if len(hdr) != 108:
             raise FormatError('fixed index header is %d chars' % len(hdr))
         for li, keys in enumerate(varlists):
@@ -234,13 +251,13 @@ def encode(spec):
         if len(hdr) != lenh:
             raise FormatError('index header %d chars, LENH %d' %
                               (len(hdr), lenh))
-        rec = label(yy, mm, dd, hh, ff, 0, spec['grid'], 'INDX', 0, 0.0,
+        rec = label(yy, mm, dd, hh, ff, 0, grid, 'INDX', 0, 0.0,
                     0.0) + hdr.encode('ascii')
         out.append(rec + b' ' * (recl - len(rec)))
         for li, keys in enumerate(varlists):
             for key in keys:
                 p = packed[(li, key)]
-                out.append(label(yy, mm, dd, hh, ff, li, spec['grid'], key,
+                out.append(label(yy, mm, dd, hh, ff, li, grid, key,
                                  p['nexp'], p['prec'], p['var1']) +
                            p['bytes'])
     return b''.join(out), info
@@ -267,7 +284,9 @@ def decode(buf):
     if lab['key'] != 'INDX':
         raise FormatError('first record is %r' % lab['key'])
     fixed = buf[50:158].decode('ascii')
-    nx, ny, nz = int(fixed[93:96]), int(fixed[96:99]), int(fixed[99:102])
+    ox, oy = grid_offsets(lab['grid'])
+    nx, ny, nz = (int(fixed[93:96]) + ox, int(fixed[96:99]) + oy,
+                  int(fixed[99:102]))
     recl = 50 + nx * ny
     if len(buf) % recl:
         raise FormatError('file length %d is not a multiple of %d' %
@@ -285,7 +304,7 @@ def decode(buf):
         t = dict(label=lab, source=fixed[0:4], fhour=int(fixed[4:7]),
                  minutes=int(fixed[7:9]),
                  geo=[float(fixed[9 + 7 * k:16 + 7 * k]) for k in range(12)],
-                 nx=int(fixed[93:96]), ny=int(fixed[96:99]),
+                 nx=int(fixed[93:96]) + ox, ny=int(fixed[96:99]) + oy,
                  nz=int(fixed[99:102]), vsys=int(fixed[102:104]),
                  lenh=int(fixed[104:108]), levels=[], records={})
         pos = 158
@@ -411,6 +430,10 @@ def selfcheck(repo_src=None):
                         (ti, li, key), j, i,
                         abs(rec['values'][j][i] - rows[j][i]), bound))
                     return errs
+    if grid_chars(1003, 4) != 'A@' or grid_chars(4, 2001) != '@B' or \
+            grid_chars(19, 18) != '99' or grid_offsets('A@') != [1000, 0] \
+            or grid_offsets('99') != [0, 0] or grid_offsets('@B') != [0, 2000]:
+        errs.append('arl_ref: grid characters')
     return errs
 
 
